@@ -1,3 +1,6 @@
+#include <algorithm>
+#include <climits>
+
 #include "VM/include/program.hpp"
 #include "VM/include/vm.hpp"
 #include "VM/include/verif_hook.hpp"
@@ -114,10 +117,12 @@ bool VM::executeSingle() {
       // i.parameters.add.source << " + " << i.parameters.add.constant <<
       // std::endl;
       WordIndex base = this->stack.back().data_start;
+      // add in 64 bit: the sum of two words may not fit a word; values are
+      // natural numbers, so the result saturates at both ends of the range
+      long long sum = (long long)this->data[base + i.parameters.add.source] +
+                      (long long)i.parameters.add.constant;
       this->data[base + i.parameters.add.target] =
-          std::max(this->data[base + i.parameters.add.source] +
-                       i.parameters.add.constant,
-                   0);
+          (Word)std::min<long long>(std::max<long long>(sum, 0), INT_MAX);
       this->instruction_pointer++;
       break;
     }
